@@ -127,10 +127,15 @@ def gen_pipeline(ctx: Ctx, focus=False, force_algorithm=False, failing=False, pa
         scan = rng.choice(["none", "custom", "line", "grid"])
         dets = rng.choice([["annular"], ["flexible"], ["segmented"], ["annular", "pixelated"], ["annular", "flexible", "waves"]])
     post = rng.choice(["none", "ctf", "ctf+intensity"]) if dets == ["waves"] else "none"
-    kind = "build" if (not focus and rng.random() < 0.15) else "multislice"
+    r = rng.random()
+    kind = "multislice" if focus else ("build" if r < 0.12 else "detect" if r < 0.27 else "multislice")
     if kind == "build":
-        dets, post = ["waves"], rng.choice(["none", "ctf", "ctf+intensity"])
-    entry = "builder" if kind == "build" else rng.choice(["builder", "builder", "real", "reciprocal"])
+        dets, post = ["waves"], rng.choice(["none", "ctf", "ctf+intensity", "ctf-ensemble"])
+    elif kind == "detect":  # detection as a step of its own: detector.detect(waves) on lazy vs eager built waves
+        builder, post = "probe", "none"
+        scan = rng.choice(["none", "custom", "line", "grid"])
+        dets = [rng.choice(["waves", "annular", "flexible", "segmented", "pixelated"])]
+    entry = "builder" if kind in ("build", "detect") else rng.choice(["builder", "builder", "real", "reciprocal"])
     # the real-space kernel costs ~30 s CPU per run (JIT compilation per operator): thorough tier, ~5 % of the pipelines
     slow = ["realspace"] if (ctx.thorough and rng.random() < 0.15) else []
     algorithm = rng.choice(["default", "default", "fourier-conjugate", "fourier-transpose", "fourier-order2"] + slow)
@@ -155,7 +160,7 @@ def gen_pipeline(ctx: Ctx, focus=False, force_algorithm=False, failing=False, pa
         kind = "multislice"
     if partial_blocks:
         post = "none"
-    return dict(fail=fail, ens_probe=ens_probe, algorithm=algorithm, entry=entry, kind=kind, post=post, nslices=n, atoms=atoms, pot=pot, spec=spec, builder=builder, scan=scan, dets=dets, gpts=rng.choice([8, 12]),
+    return dict(ae_mean=rng.random() < 0.5, fail=fail, ens_probe=ens_probe, algorithm=algorithm, entry=entry, kind=kind, post=post, nslices=n, atoms=atoms, pot=pot, spec=spec, builder=builder, scan=scan, dets=dets, gpts=rng.choice([8, 12]),
                 ncfg=rng.randint(1, 3), seed=rng.randint(1, 10 ** 6), max_batch=(2 if partial_blocks else rng.choice(["auto", 1, 2, 3])),
                 scheduler=rng.choice(["synchronous", "synchronous", "threads"]),
                 points=[[dyadic(rng, 0, 3.5, 2), dyadic(rng, 0, 3.5, 2)] for _ in range(rng.randint(1, 3))])
@@ -176,7 +181,7 @@ def _build_pipeline(c):
         pot = abtem.Potential(fp, **kw)
     elif c["pot"] == "atoms_ensemble":
         fp = abtem.FrozenPhonons(atoms, c["ncfg"], 0.1, seed=c["seed"])
-        pot = abtem.Potential(abtem.AtomsEnsemble(list(fp), ensemble_mean=False), **kw)
+        pot = abtem.Potential(abtem.AtomsEnsemble(list(fp), ensemble_mean=bool(c.get("ae_mean", False))), **kw)
     elif c["pot"] == "crystal":
         unit = abtem.Potential(atoms, gpts=c["gpts"], slice_thickness=1.0)
         pot = abtem.CrystalPotential(unit, repetitions=(1, 1, 2), exit_planes=spec)
@@ -216,9 +221,11 @@ def _run_pipeline(c, lazy):
     akw = _algorithm_kw(c)
     with warnings.catch_warnings():
         warnings.simplefilter("ignore")
-        if c.get("kind", "multislice") == "build":  # wave building only (Probe/PlaneWave.build), lazy vs eager
+        if c.get("kind", "multislice") in ("build", "detect"):  # wave building only (Probe/PlaneWave.build), lazy vs eager
             r = builder.build(lazy=lazy, max_batch=c["max_batch"]) if c["builder"] == "plane" else \
                 builder.build(scan=scan, lazy=lazy, max_batch=c["max_batch"])
+            if c["kind"] == "detect":
+                r = dets[0].detect(r)
         elif c.get("entry", "builder") != "builder":
             # the incident waves are handed to Waves.multislice as an object, in real or reciprocal space
             w = builder.build(lazy=False) if c["builder"] == "plane" else builder.build(scan=scan, lazy=False)
@@ -235,7 +242,8 @@ def _run_pipeline(c, lazy):
             r = builder.multislice(pot, scan=scan, detectors=dets, lazy=lazy, max_batch=c["max_batch"], **akw)
         post = c.get("post", "none")
         if post != "none":  # CTF application (and intensity) on the exit / built waves
-            r = r.apply_ctf(abtem.CTF(defocus=40.0, Cs=-2e4, semiangle_cutoff=25), max_batch=c["max_batch"])
+            defocus = abtem.distributions.uniform(20.0, 60.0, 3) if post == "ctf-ensemble" else 40.0  # a transform ensemble axis
+            r = r.apply_ctf(abtem.CTF(defocus=defocus, Cs=-2e4, semiangle_cutoff=25), max_batch=c["max_batch"])
             if post == "ctf+intensity":
                 r = r.intensity()
         if lazy:
@@ -262,7 +270,7 @@ def _close(a, b):
         return False, f"shape {a.shape} vs {b.shape}"
     gmax = max(float(np.abs(b).max()) if b.size else 0.0, 1e-30)
     err = np.abs(a - b) - (1e-4 * np.abs(b) + 1e-7 * gmax)
-    bad = int((err > 0).sum())
+    bad = int((~(err <= 0)).sum())  # NaN counts as a difference
     return bad == 0, f"{bad} of {a.size} entries differ, max|diff|={float(np.abs(a - b).max()) if a.size else 0:.3g} max={gmax:.3g}"
 
 
@@ -281,7 +289,7 @@ class C01(Property):
         "hypothesis `stepB`/`detectB` of the theorems; observed numerically)",
         "tagging kernels of harness/msd_trace.py; hand models `Blockwise.lazyEntry/eagerEntry/applyLazy` and the loop model of "
         "Model/Multislice.lean (traced correspondence); Lib/Partition",
-        "float reassociation: lazy and eager arrays are compared to 2e-5 of the array maximum (float32)",
+        "float reassociation: every entry of lazy and eager arrays must agree to 1e-4 relative + 1e-7 of the array maximum (float32; NaN fails)",
     ]
     assumptions = [
         "step, detect: arbitrary per-wave functions; batches are lists of member waves",
@@ -371,6 +379,10 @@ class C01(Property):
             # the property asks that both modes fail together, not for the same exception class (lazy errors surface inside
             # dask); classes are recorded in the histogram.  A *valid* pipeline failing in both modes is counted separately.
             ctx.count(f"both-raise:{c.get('fail', 'none')}:eager={ve.split(':')[0]}:lazy={vl.split(':')[0]}")
+            if c.get("fail", "none") == "none":
+                # a pipeline of the property's configuration space must run: failing in both modes is not "equal results"
+                ctx.violation(f"valid-pipeline-raises-in-both-modes:{ve.split(':')[0]}:{'+'.join(c['dets'])}:scan={c['scan']}:"
+                              f"ensprobe={c.get('ens_probe')}", c, {"eager": ve, "lazy": vl, "case": tag})
             return
         if c.get("fail", "none") != "none":
             ctx.violation(f"malformed-pipeline-accepted:{c['fail']}", c, {"case": tag})
